@@ -24,7 +24,7 @@ enum { OP_END = 0, OP_CR = 1, OP_JN = 2, OP_TJ = 3, OP_DT = 4, OP_YD = 5, OP_EX 
        OP_BAR = 15, OP_JCDEC = 16, OP_JCWAIT = 17, OP_UCWAIT = 18, OP_UCSIG = 19,
        OP_FEWL = 20, OP_FEMS = 21, OP_ONCE = 22, OP_KSET = 23, OP_KGET = 24, OP_SLEEP = 25,
        OP_TLK = 26, OP_TJN = 27, OP_SETV = 28, OP_WAITV = 29, OP_NEST = 30, OP_PROBE = 31,
-       OP_KCREATE = 32, OP_KDELETE = 33, OP_CANCEL = 34, OP_TESTCANCEL = 35, OP_BUSY = 36, OP_FELK = 37, OP_FEUL = 38, OP_WAITGE = 39, OP_CBCO = 40 };
+       OP_KCREATE = 32, OP_KDELETE = 33, OP_CANCEL = 34, OP_TESTCANCEL = 35, OP_BUSY = 36, OP_FELK = 37, OP_FEUL = 38, OP_WAITGE = 39, OP_CBCO = 40, OP_JCPOKE = 41 };
 enum { F_PF = 1, F_DETACH = 2, F_STACK = 4, F_ATTR = 8, F_NULLID = 16, F_DIRTY = 32 };
 
 typedef struct { int op, a, b, c; } op_t;
@@ -225,6 +225,9 @@ static int exec_op(int k, op_t *o, long *ret){
       { int g = o->a; lock_(k, g); vars[g] = o->b; unlock_(k, g); csig_(k, 2 * g, o->c); break; }
     case OP_BAR: { int rc; U("U_BarrierCall", 2, (long)k, BRID(o->a)); rc = myth_barrier_wait(&bar[o->a]);
         U("U_BarrierRet", 4, (long)k, BRID(o->a), (long)rc, (long)bar_n[o->a]); break; }
+    case OP_JCPOKE: /* a = join counter, b = m: the word is set as if all but m of the N decrements had been made while
+                       nobody waited (a state those decrement calls would reach; used for N too large to count up to) */
+      { long d_ = (long)jc_n[o->a] - (long)o->b; U("U_JcPoke", 3, (long)k, JCID(o->a), d_); jcs[o->a].state = d_; break; }
     case OP_JCDEC: U("U_JcDecCall", 2, (long)k, JCID(o->a)); myth_join_counter_dec(&jcs[o->a]); U("U_JcDecRet", 2, (long)k, JCID(o->a)); break;
     case OP_JCWAIT: U("U_JcWaitCall", 2, (long)k, JCID(o->a)); myth_join_counter_wait(&jcs[o->a]); U("U_JcWaitRet", 3, (long)k, JCID(o->a), (long)jc_n[o->a]); break;
     case OP_UCSIG: /* mailbox put (documented uncond protocol, as in tests/myth_uncond_signal.c) */
